@@ -260,6 +260,12 @@ class Machine:
                 td = self._member_probe(name, label, m, kind, sites)
                 v = self._call(td)
                 self._manual_member(name, obj, m, kind, td, v, manual)
+            if len(pres) > 1 and manual is not None:
+                # a precondition condition that raises: the exception is the outcome of the call, whatever the other groups say
+                for s in pres[:3]:
+                    td = self._member_probe(name, label, m, kind, {s: {"fault": {"kind": "raise:FaultError"}}})
+                    v = self._call(td)
+                    self._manual_member(name, obj, m, kind, td, v, manual)
             if kind in ("method", "prop"):
                 for s in invs:
                     obj._flags[s] = False
